@@ -37,8 +37,8 @@ CHECKS.update({
          "TokioIo in both directions, Rewind, client/server braid Stream (plain and TLS arms), duplex transport: bytes received are always a prefix of the position-indexed reference stream, nothing beyond what was offered, EOF after shutdown, resets surface as errors, read-buffer contract (pre-filled bytes untouched, no over-report). Seeded search.",
          "the TCP/Unix wrappers and Braid arms run over real kernel sockets, where chunking is the kernel's and no fault can be injected; TLS runs with >=32 KiB pipe capacity (smaller socket buffers deadlock any TLS handshake); an endpoint is not used again after it returned an error",
          "DESIGN.md 5 (C18), 4.D"),
- "C19": ("timersim+poolsim", "exploration",
-         "deterministic simulation in virtual time: Timeout layer over a scripted inner future (grid enumerated) and over the real pool (deadline landing in every stage of a pooled request), with a follow-up probe",
+ "C19": ("timersim+poolsim+e2etimeout", "exploration",
+         "deterministic simulation in virtual time: Timeout layer over a scripted inner future (grid enumerated) and over the real pool (deadline landing in every stage of a pooled request), with a follow-up probe; third part (e2etimeout): real client stack (every builder call order, with and without the redirect layer) and real servers, client timeout T, handler delays around T on every hop, one-hop redirects - every request resolves by T",
          "Resolves at issue+d with the timeout error unless the inner future was ready first (tie: either), inner result unchanged, inner future dropped at resolution and never polled again; over the pool: no hand-off after expiry, probe request to the same origin succeeds.",
          "tokio paused clock trusted; same stubs as the other pool checks",
          "DESIGN.md 5 (C19), 4.A, 4.E"),
@@ -49,11 +49,11 @@ def e2e(engine, cat, tech, text, ref, note=E2E_NOTE):
     return (engine, cat, tech, text, note, ref)
 CHECKS.update({
  "C01": e2e("e2esim", "exploration",
-   "deterministic simulation: real client stack and real servers over SimNet (seeded chunking, Pending, virtual delays, EOF/reset at byte offsets, refused dials), seeded request mixes with cancels; per-request identity/digest oracle at handler and client",
+   "deterministic simulation: real client stack and real servers over SimNet (seeded chunking, Pending, virtual delays, EOF/reset at byte offsets, refused dials), seeded request mixes with cancels, redirects (followed or not, per the model of the redirect layer), caller-supplied User-Agent / te: trailers, every order of the builder calls; per-request identity/digest oracle at handler and client",
    "Every request carries its id three times (path, header, body pattern); the handler checks what it receives, the client checks status, headers and every body byte of what it gets back, over HTTP/1.1, HTTP/2, TLS+ALPN, pooled reuse, concurrency, upgrades and cancels at every stage. Fault-free runs: every un-cancelled request must succeed; faulty runs: a failure is excused only by a transport fault on a connection of that origin; wrong or truncated data never.",
    "DESIGN.md 5 (C01), 4.B"),
  "C07": e2e("shutdown", "exploration",
-   "deterministic simulation: graceful-shutdown signal at a seeded virtual instant against 0-4 connections in every stage; history oracle relative to the signal instant; executor wrapper counts connection tasks",
+   "deterministic simulation: graceful-shutdown signal at a seeded virtual instant against 0-4 connections in every stage (plain or behind the TLS acceptor; raw HTTP/1 clients that split heads and pipeline, hyper HTTP/2 clients, silent / TLS-stalled clients; http1-only servers also built through with_http1(); connects queued at the instant of the signal); history oracle relative to the signal instant; executor wrapper counts connection tasks",
    "Serving future Ok(()) exactly at the signal; nothing connected afterwards is served; every request whose handler had started completes correctly; every connection closed by the server and its task finished within 1 s (5 s with I/O delays) of its last exchange; idle and still-sniffing connections closed. http1 / http2 / auto.",
    "DESIGN.md 5 (C07), 4.B"),
  "C08": e2e("sniff", "fault_enumeration",
@@ -75,7 +75,7 @@ CHECKS.update({
    "DESIGN.md 5 (C13), 4.B"),
 })
 CHECKS["C17"] = ("poolsim+grammar+e2esim", "exploration",
-   "deterministic simulation with a process-wide panic monitor: (1) pool step lists incl. every http::Version constant, (2) the full cross product version x method x URI form x {Client, Client without pool, ConnectorService, ConnectorService over a URI-agnostic transport} x {plain, TLS} against real servers, (3) the ordinary end-to-end workload",
+   "deterministic simulation with a process-wide panic monitor: (1) pool step lists incl. every http::Version constant, (2) the full cross product version x method x URI form x {Client, Client without pool, ConnectorService, ConnectorService over a URI-agnostic transport, the bare pooled service, the bare connector service} x {plain, TLS} against real servers, plus seeded header sets incl. obs-text values, (3) the ordinary end-to-end workload",
    "No panic in the caller's task nor in any library-spawned task (debug assertions on), and every call resolves with a response or an error within a minute of virtual time.",
    "hyper/h2/rustls exercised not verified; TcpTransport::get_host_and_port sits behind kernel sockets and is not run",
    "DESIGN.md 5 (C17)")
